@@ -1,6 +1,6 @@
 (* Lemmas for C18: the bit trick of align_to, struct_layout against the System V rules,
-   checked arithmetic refines wrapping arithmetic, partial correctness of compute_layouts,
-   Kahn's algorithm (soundness, completeness), diagnosis of by-value recursion. *)
+   correctness of compute_layouts for whole environments, Kahn's algorithm (soundness,
+   completeness), diagnosis of by-value recursion and of sizes that do not fit u32. *)
 From Coq Require Import Permutation.
 From Aelys Require Import Base.Tactics Extracted.LayoutTable Model.Layout Model.SysV.
 Local Open Scope N_scope.
@@ -46,7 +46,8 @@ Proof.
       apply N.mod_pow2_bits_high. exact G2.
 Qed.
 
-(* ------------------------------------------------------------------ part b *)
+
+(* ------------------------------------------------------------------ align_to *)
 Lemma W32_pow : W32 = 2^32. Proof. reflexivity. Qed.
 
 Lemma mask_down u k : u < W32 -> k <= 32 ->
@@ -57,148 +58,54 @@ Proof.
   rewrite N.shiftl_mul_pow2, N.shiftr_div_pow2. apply N.mul_comm.
 Qed.
 
-(* a divides 2^32: rounding down to a multiple of a commutes with reduction mod 2^32 *)
-Lemma down_mod a c x : a * c = W32 -> 0 < a ->
-  (a * (x / a)) mod W32 = a * ((x mod W32) / a).
-Proof.
-  intros Hac Ha.
-  pose proof (N.div_mod x W32 ltac:(unfold W32; lia)) as E.
-  pose proof (N.mod_upper_bound x W32 ltac:(unfold W32; lia)) as R.
-  set (q := x / W32) in *. set (r := x mod W32) in *.
-  assert (Hx : x / a = c * q + r / a).
-  { rewrite E. rewrite <- Hac. rewrite <- N.mul_assoc.
-    rewrite (N.mul_comm a (c * q)). rewrite N.div_add_l by lia. reflexivity. }
-  rewrite Hx. rewrite N.mul_add_distr_l. rewrite N.mul_assoc. rewrite Hac.
-  pose proof (N.mul_div_le r a ltac:(lia)) as L.
-  replace (W32 * q + a * (r / a)) with (a * (r / a) + q * W32) by lia.
-  rewrite N.mod_add by (unfold W32; lia).
-  apply N.mod_small. lia.
-Qed.
-
 Lemma pow2_divides_W32 k : k <= 32 -> 2^k * 2^(32 - k) = W32.
 Proof. intro H. rewrite <- N.pow_add_r. replace (k + (32 - k)) with 32 by lia. reflexivity. Qed.
 
-Lemma align_to_wrap x k : k < 32 ->
-  align_to false (x mod W32) (2^k) = Ok ((round_up x (2^k)) mod W32).
-Proof.
-  intro Hk.
-  assert (Ha : 0 < 2^k) by (apply N.neq_0_lt_0; apply N.pow_nonzero; lia).
-  assert (Ha32 : 2^k < W32) by (rewrite W32_pow; apply N.pow_lt_mono_r; lia).
-  set (a := 2^k) in *.
-  unfold align_to, add32, sub32, bind. cbn [andb].
-  replace (1 <=? a) with true by lia.
-  assert (U : (if 1 <=? (x mod W32 + a) mod W32 then Ok ((x mod W32 + a) mod W32 - 1)
-               else Ok ((x mod W32 + a) mod W32 + W32 - 1)) = Ok ((x + (a - 1)) mod W32)).
-  { pose proof (N.div_mod x W32 ltac:(unfold W32; lia)) as E.
-    pose proof (N.mod_upper_bound x W32 ltac:(unfold W32; lia)) as R.
-    set (r := x mod W32) in *. set (q := x / W32) in *.
-    assert (M : (x + (a - 1)) mod W32 = (r + (a - 1)) mod W32).
-    { rewrite E. replace (W32 * q + r + (a - 1)) with (r + (a - 1) + q * W32) by lia.
-      apply N.mod_add. unfold W32; lia. }
-    rewrite M. unfold W32 in *. destruct (1 <=? (r + a) mod 4294967296) eqn:C; f_equal; lia. }
-  rewrite U.
-  f_equal. unfold a. rewrite mask_down by (try apply N.mod_upper_bound; unfold W32; lia).
-  unfold round_up. fold a.
-  symmetry. apply (down_mod a (2^(32-k))); [apply pow2_divides_W32; lia|exact Ha].
-Qed.
-
-(* ------------------------------------------------------------------ part c *)
 Definition is_al (a : N) : Prop := exists k, k < 32 /\ a = 2^k.
-
 Lemma is_al_max a b : is_al a -> is_al b -> is_al (N.max a b).
 Proof. intros Ha Hb. destruct (N.max_spec a b) as [[_ ->]|[_ ->]]; assumption. Qed.
 Lemma is_al_1 : is_al 1. Proof. exists 0. split; [lia|reflexivity]. Qed.
 Lemma is_al_pos a : is_al a -> 0 < a.
 Proof. intros [k [_ ->]]. apply N.neq_0_lt_0. apply N.pow_nonzero. lia. Qed.
 
-(* checked arithmetic refines wrapping arithmetic *)
-Lemma add32_chk a b r : add32 true a b = Ok r -> add32 false a b = Ok r.
-Proof. unfold add32. cbn [andb]. destruct (W32 <=? a + b); [discriminate|auto]. Qed.
-Lemma sub32_chk a b r : sub32 true a b = Ok r -> sub32 false a b = Ok r.
-Proof. unfold sub32. destruct (b <=? a); [auto|discriminate]. Qed.
-Lemma mul32_chk a b r : mul32 true a b = Ok r -> mul32 false a b = Ok r.
-Proof. unfold mul32. cbn [andb]. destruct (W32 <=? a * b); [discriminate|auto]. Qed.
+(* the rounded value fits u32 exactly when the intermediate sum does *)
+Lemma round_up_fits x a : is_al a -> (W32 <=? x + (a - 1)) = (W32 <=? round_up x a).
+Proof.
+  intros [k [Hk ->]]. set (a := 2^k).
+  assert (Ha : 0 < a) by (apply N.neq_0_lt_0; apply N.pow_nonzero; lia).
+  pose proof (pow2_divides_W32 k ltac:(lia)) as Hc. fold a in Hc. set (c := 2^(32-k)) in *.
+  unfold round_up.
+  pose proof (N.mul_div_le (x + (a - 1)) a ltac:(lia)) as Le.
+  destruct (W32 <=? x + (a - 1)) eqn:C1; symmetry.
+  - apply N.leb_le. apply N.leb_le in C1.
+    assert (c <= (x + (a - 1)) / a).
+    { replace c with (W32 / a); [apply N.div_le_mono; lia|]. rewrite <- Hc. rewrite N.mul_comm. apply N.div_mul. lia. }
+    rewrite <- Hc. apply N.mul_le_mono_l. assumption.
+  - apply N.leb_gt. apply N.leb_gt in C1. lia.
+Qed.
 
 Lemma bind_ok {A B} (r : res A) (f : A -> res B) b :
   bind r f = Ok b -> exists a, r = Ok a /\ f a = Ok b.
 Proof. destruct r; cbn; [eauto|discriminate]. Qed.
 
-Lemma align_to_chk o a r : align_to true o a = Ok r -> align_to false o a = Ok r.
+(* align_to, exactly: the least multiple if it fits u32, TooLarge otherwise *)
+Lemma align_to_char o a : is_al a -> o < W32 ->
+  align_to o a = if W32 <=? round_up o a then Fail ETooLarge else Ok (round_up o a).
 Proof.
-  unfold align_to. intro H.
-  apply bind_ok in H as [t [H1 H]]. apply bind_ok in H as [u [H2 H]]. apply bind_ok in H as [m [H3 H]].
-  rewrite (add32_chk _ _ _ H1). cbn [bind]. rewrite (sub32_chk _ _ _ H2). cbn [bind].
-  rewrite (sub32_chk _ _ _ H3). cbn [bind]. exact H.
+  intros Hal Ho. rewrite <- (round_up_fits o a Hal). destruct Hal as [k [Hk ->]].
+  unfold align_to, add32. destruct (W32 <=? o + (2^k - 1)) eqn:C; [reflexivity|].
+  cbn [bind]. apply N.leb_gt in C. rewrite mask_down by lia. reflexivity.
 Qed.
 
-Lemma array_layout_chk el n r : array_layout true el n = Ok r -> array_layout false el n = Ok r.
+Lemma align_to_exact o k : k < 32 -> o + 2^k <= W32 -> align_to o (2^k) = Ok (round_up o (2^k)).
 Proof.
-  unfold array_layout. intro H. apply bind_ok in H as [s [H1 H]].
-  rewrite (mul32_chk _ _ _ H1). exact H.
+  intros Hk G. assert (Ha : 0 < 2^k) by (apply N.neq_0_lt_0; apply N.pow_nonzero; lia).
+  assert (Hal : is_al (2^k)) by (exists k; auto).
+  rewrite align_to_char by (auto; lia). rewrite <- (round_up_fits o _ Hal).
+  replace (W32 <=? o + (2^k - 1)) with false by lia. reflexivity.
 Qed.
 
-Lemma resolved_layout_chk m t r : resolved_layout true m t = Ok r -> resolved_layout false m t = Ok r.
-Proof.
-  revert r. induction t; intros r H; cbn [resolved_layout] in *; auto.
-  apply bind_ok in H as [el [H1 H]]. rewrite (IHt _ H1). cbn [bind]. apply array_layout_chk. exact H.
-Qed.
-
-Lemma fields_layout_chk m fs : forall o ma r,
-  fields_layout true m fs o ma = Ok r -> fields_layout false m fs o ma = Ok r.
-Proof.
-  induction fs as [|t fs IH]; intros o ma r H; cbn [fields_layout] in *; auto.
-  apply bind_ok in H as [fl [H1 H]]. apply bind_ok in H as [o' [H2 H]].
-  apply bind_ok in H as [e [H3 H]]. apply bind_ok in H as [x [H4 H]].
-  rewrite (resolved_layout_chk _ _ _ H1). cbn [bind].
-  rewrite (align_to_chk _ _ _ H2). cbn [bind].
-  rewrite (add32_chk _ _ _ H3). cbn [bind].
-  rewrite (IH _ _ _ H4). cbn [bind]. exact H.
-Qed.
-
-Lemma struct_layout_chk m fs r : struct_layout true m fs = Ok r -> struct_layout false m fs = Ok r.
-Proof.
-  unfold struct_layout. intro H. apply bind_ok in H as [x [H1 H]].
-  rewrite (fields_layout_chk _ _ _ _ _ H1). cbn [bind].
-  destruct x as [[offs e] ma]. apply bind_ok in H as [sz [H2 H]].
-  rewrite (align_to_chk _ _ _ H2). exact H.
-Qed.
-
-Lemma lay_chk E order : forall m offs r,
-  lay true E order m offs = Ok r -> lay false E order m offs = Ok r.
-Proof.
-  induction order as [|i order IH]; intros m offs r H; cbn [lay] in *; auto.
-  destruct (nth_error E i) as [d|]; [|discriminate].
-  apply bind_ok in H as [x [H1 H]]. rewrite (struct_layout_chk _ _ _ H1). cbn [bind].
-  destruct x as [[os sz] al]. apply IH. exact H.
-Qed.
-
-Lemma compute_layouts_chk E r : compute_layouts true E = Ok r -> compute_layouts false E = Ok r.
-Proof.
-  unfold compute_layouts. destruct (has_self_ref E); [discriminate|].
-  intro H. apply bind_ok in H as [order [H1 H]]. rewrite H1. cbn [bind]. apply lay_chk. exact H.
-Qed.
-
-(* ---- exact form of align_to *)
-Lemma align_to_exact (chk : bool) o k : k < 32 ->
-  o + 2^k < W32 + (if chk then 0 else 1)%N ->
-  align_to chk o (2^k) = Ok (round_up o (2^k)).
-Proof.
-  intros Hk Hg.
-  assert (Ha : 0 < 2^k) by (apply N.neq_0_lt_0; apply N.pow_nonzero; lia).
-  pose proof (round_up_spec o (2^k) Ha) as [_ [Hge [Hlt _]]].
-  assert (W : align_to false o (2^k) = Ok (round_up o (2^k))).
-  { rewrite <- (N.mod_small o W32) at 1 by (destruct chk; lia).
-    rewrite align_to_wrap by exact Hk. f_equal. apply N.mod_small. destruct chk; lia. }
-  destruct chk; [|exact W].
-  revert W. unfold align_to, add32, sub32, bind. cbn [andb].
-  replace (W32 <=? o + 2^k) with false by lia.
-  rewrite (N.mod_small (o + 2^k) W32) by lia.
-  replace (1 <=? o + 2^k) with true by lia. replace (1 <=? 2^k) with true by lia.
-  exact (fun W => W).
-Qed.
-
-(* ------------------------------------------------------------------ part d *)
-Definition m32 (x : N) : N := x mod W32.
+(* ------------------------------------------------------------------ struct level *)
 Definition als (ms : c_members_t) : Prop := Forall (fun sa => is_al (snd sa)) ms.
 
 Lemma Forall2_imp {A B} (P Q : A -> B -> Prop) l l' :
@@ -216,7 +123,6 @@ Qed.
 Lemma round_up_ge x a : is_al a -> x <= round_up x a.
 Proof. intro H. apply (round_up_spec x a (is_al_pos a H)). Qed.
 
-(* every member lies inside [start, end]; the end does not move backwards *)
 Lemma c_offsets_bounds ms : als ms -> forall e,
   e <= snd (c_offsets ms e) /\
   Forall2 (fun o sa => e <= o /\ o + fst sa <= snd (c_offsets ms e)) (fst (c_offsets ms e)) ms.
@@ -228,87 +134,57 @@ Proof.
   eapply Forall2_imp; [|exact I2]. cbn. intros o sa [X Y]. lia.
 Qed.
 
-Lemma c_align_ge_members ms : Forall (fun sa => snd sa <= c_align ms) ms.
-Proof.
-  induction ms as [|[s a] r IH]; constructor; cbn [c_align fold_right snd]; [lia|].
-  eapply Forall_impl; [|exact IH]. cbn. intros sa H. fold (c_align r). lia.
-Qed.
+Definition fields_resolve (m : rmap) (fs : list ty) (ms : c_members_t) : Prop :=
+  Forall2 (fun t sa => resolved_layout m t = Ok sa) fs ms.
 
-Definition fields_resolve (chk : bool) (m : rmap) (fs : list ty) (ms : c_members_t) : Prop :=
-  Forall2 (fun t sa => resolved_layout chk m t = Ok sa) fs ms.
-(* ... up to reduction mod 2^32 of the sizes *)
-Definition fields_resolve32 (m : rmap) (fs : list ty) (ms : c_members_t) : Prop :=
-  Forall2 (fun t sa => resolved_layout false m t = Ok (m32 (fst sa), snd sa)) fs ms.
-
-Lemma fields_layout_wrap m fs ms : fields_resolve32 m fs ms -> als ms -> forall e ma, 1 <= ma ->
-  fields_layout false m fs (m32 e) ma =
-  Ok (map m32 (fst (c_offsets ms e)), m32 (snd (c_offsets ms e)), N.max ma (c_align ms)).
+(* the field loop, exactly: the C offsets if the end of the last member fits u32 *)
+Lemma fields_layout_char m fs ms : fields_resolve m fs ms -> als ms -> forall e ma, 1 <= ma -> e < W32 ->
+  fields_layout m fs e ma =
+  if W32 <=? snd (c_offsets ms e) then Fail ETooLarge
+  else Ok (fst (c_offsets ms e), snd (c_offsets ms e), N.max ma (c_align ms)).
 Proof.
-  induction 1 as [|t [s a] fs ms Ht Hr IH]; intros Hal e ma Hma.
-  - cbn. f_equal. f_equal. lia.
-  - inversion Hal as [|x y [k [Hk Ea]] Hal']; subst x y. cbn [snd] in Ea.
-    cbn [fields_layout]. rewrite Ht. cbn [bind fst snd].
-    unfold m32 at 1. rewrite Ea. rewrite align_to_wrap by exact Hk. cbn [bind].
-    unfold add32. cbn [andb]. fold (m32 (round_up e (2^k))). unfold m32 at 1 2.
-    rewrite <- N.add_mod by (unfold W32; lia). fold (m32 (round_up e (2 ^ k) + s)).
-    cbn [bind]. rewrite IH by (try assumption; lia). cbn [bind].
-    cbn [c_offsets].
-    destruct (c_offsets ms (round_up e (2 ^ k) + s)) as [os e'].
-    cbn [fst snd map c_align fold_right]. fold (c_align ms). unfold m32.
-    f_equal. f_equal. lia.
-Qed.
-
-Lemma struct_layout_wrap m fs ms : fields_resolve32 m fs ms -> als ms ->
-  struct_layout false m fs =
-  Ok (map m32 (fst (fst (c_struct_of ms))), m32 (snd (fst (c_struct_of ms))), snd (c_struct_of ms)).
-Proof.
-  intros Hr Hal. unfold struct_layout.
-  change 0 with (m32 0) at 1. rewrite (fields_layout_wrap m fs ms Hr Hal 0 1) by lia.
-  cbn [bind]. unfold c_struct_of. destruct (c_offsets ms 0) as [os e]. cbn [fst snd].
-  pose proof (c_align_ge1 ms). replace (N.max 1 (c_align ms)) with (c_align ms) by lia.
-  destruct (c_align_is_al ms Hal) as [k [Hk Ea]]. rewrite Ea.
-  unfold m32 at 1. rewrite align_to_wrap by exact Hk. reflexivity.
-Qed.
-
-(* exact version, both arithmetic modes, under the no-overflow guard *)
-Lemma fields_layout_exact chk m fs ms : fields_resolve chk m fs ms -> als ms -> forall e ma, 1 <= ma ->
-  snd (c_offsets ms e) + N.max ma (c_align ms) < W32 + (if chk then 0 else 1)%N ->
-  fields_layout chk m fs e ma = Ok (fst (c_offsets ms e), snd (c_offsets ms e), N.max ma (c_align ms)).
-Proof.
-  induction 1 as [|t [s a] fs ms Ht Hr IH]; intros Hal e ma Hma G.
-  - cbn. f_equal. f_equal. lia.
+  induction 1 as [|t [s a] fs ms Ht Hr IH]; intros Hal e ma Hma He.
+  - cbn. replace (W32 <=? e) with false by lia. f_equal. f_equal. lia.
   - inversion Hal as [|x y Ha Hal']; subst x y. cbn [snd] in Ha.
     pose proof (c_offsets_bounds ms Hal' (round_up e a + s)) as [B1 _].
     pose proof (round_up_ge e a Ha) as Ge.
-    pose proof (c_align_ge1 ms) as A1.
-    cbn [c_offsets c_align fold_right] in G. fold (c_align ms) in G.
-    destruct (c_offsets ms (round_up e a + s)) as [os e'] eqn:CO. cbn [fst snd] in *.
+    cbn [c_offsets]. destruct (c_offsets ms (round_up e a + s)) as [os e'] eqn:CO. cbn [fst snd] in *.
     cbn [fields_layout]. rewrite Ht. cbn [bind fst snd].
-    destruct Ha as [k [Hk Ea]]. rewrite Ea in *.
-    rewrite align_to_exact; [|exact Hk|destruct chk; lia]. cbn [bind].
-    unfold add32. replace (W32 <=? round_up e (2^k) + s) with false by (destruct chk; lia).
-    rewrite andb_false_r. rewrite N.mod_small by (destruct chk; lia). cbn [bind].
-    rewrite IH; [| exact Hal' | lia | rewrite CO; cbn [snd]; destruct chk; lia ].
-    cbn [bind]. cbn [c_offsets]. rewrite CO. cbn [fst snd c_align fold_right]. fold (c_align ms).
-    f_equal. f_equal. lia.
+    rewrite align_to_char by assumption.
+    destruct (W32 <=? round_up e a) eqn:C1.
+    { cbn [bind]. replace (W32 <=? e') with true by lia. reflexivity. }
+    cbn [bind]. unfold add32. destruct (W32 <=? round_up e a + s) eqn:C2.
+    { cbn [bind]. replace (W32 <=? e') with true by lia. reflexivity. }
+    cbn [bind]. rewrite IH by (try assumption; lia). rewrite CO. cbn [fst snd].
+    destruct (W32 <=? e'); cbn [bind]; [reflexivity|].
+    unfold c_align. cbn [fold_right snd]. fold (c_align ms). f_equal. f_equal. lia.
 Qed.
 
-Lemma struct_layout_exact chk m fs ms : fields_resolve chk m fs ms -> als ms ->
-  snd (fst (c_struct_of ms)) + snd (c_struct_of ms) < W32 + (if chk then 0 else 1)%N ->
-  struct_layout chk m fs = Ok (c_struct_of ms).
+(* struct_layout, exactly: the C layout if sizeof fits u32, TooLarge otherwise *)
+Lemma struct_layout_char m fs ms : fields_resolve m fs ms -> als ms ->
+  struct_layout m fs =
+  if W32 <=? snd (fst (c_struct_of ms)) then Fail ETooLarge else Ok (c_struct_of ms).
 Proof.
   intros Hr Hal. unfold c_struct_of, struct_layout.
   pose proof (c_offsets_bounds ms Hal 0) as [B1 _].
-  destruct (c_offsets ms 0) as [os e] eqn:CO. cbn [fst snd] in *. intro G.
-  pose proof (c_align_ge1 ms) as A1.
-  destruct (c_align_is_al ms Hal) as [k [Hk Ea]].
-  pose proof (round_up_ge e (c_align ms) (c_align_is_al ms Hal)) as Ge.
-  rewrite (fields_layout_exact chk m fs ms Hr Hal 0 1); [| lia | rewrite CO; cbn [snd]; destruct chk; lia].
-  rewrite CO. cbn [bind fst snd]. replace (N.max 1 (c_align ms)) with (c_align ms) by lia.
-  rewrite Ea in *. rewrite align_to_exact; [reflexivity|exact Hk|destruct chk; lia].
+  rewrite (fields_layout_char m fs ms Hr Hal 0 1) by (unfold W32; lia).
+  destruct (c_offsets ms 0) as [os e] eqn:CO. cbn [fst snd] in *.
+  pose proof (c_align_ge1 ms) as A1. pose proof (c_align_is_al ms Hal) as AL.
+  pose proof (round_up_ge e (c_align ms) AL) as Ge.
+  destruct (W32 <=? e) eqn:C1; cbn [bind].
+  { replace (W32 <=? round_up e (c_align ms)) with true by lia. reflexivity. }
+  replace (N.max 1 (c_align ms)) with (c_align ms) by lia.
+  rewrite align_to_char by (auto; lia).
+  destruct (W32 <=? round_up e (c_align ms)); reflexivity.
 Qed.
 
-(* ------------------------------------------------------------------ part e *)
+Lemma struct_layout_exact m fs ms : fields_resolve m fs ms -> als ms ->
+  snd (fst (c_struct_of ms)) < W32 -> struct_layout m fs = Ok (c_struct_of ms).
+Proof.
+  intros Hr Hal G. rewrite (struct_layout_char m fs ms Hr Hal).
+  replace (W32 <=? snd (fst (c_struct_of ms))) with false by lia. reflexivity.
+Qed.
+
 (* ---- the extracted table is the System V table *)
 Lemma prim_table_sysv p : prim_layout p = sysv_prim p.
 Proof. destruct p; reflexivity. Qed.
@@ -376,38 +252,67 @@ Proof.
   apply (c_struct_mono E f' (Nat.max f f')) in H'; [|lia]. congruence.
 Qed.
 
-(* ---- from a successful run of the model to the specification *)
-Definition m_ok (E : list sdef) (m : rmap) : Prop :=
-  forall nm sz al, rlookup m nm = Some (sz, al) ->
-    exists f s, c_struct_sa f E nm = Some (s, al) /\ sz = m32 s /\ is_al al.
 
-Lemma m32_small x : x < W32 -> m32 x = x.
-Proof. apply N.mod_small. Qed.
-
-Lemma resolved_to_spec E m : m_ok E m -> forall t sz al,
-  resolved_layout false m t = Ok (sz, al) ->
-  exists f s, ty_sa (c_struct_sa f E) t = Some (s, al) /\ sz = m32 s /\ is_al al.
+Lemma c_struct_sa_is_al E f : forall nm s a, c_struct_sa f E nm = Some (s, a) -> is_al a.
 Proof.
-  intros Hm. induction t; intros sz al H; cbn [resolved_layout] in H.
-  - exists 0%nat, (fst (sysv_prim p)). destruct (sysv_prim_facts p) as [A [B _]].
-    rewrite prim_table_sysv in H. cbn [ty_sa]. destruct (sysv_prim p) as [s a]. cbn [fst snd] in *.
-    inversion H; subst. rewrite m32_small by exact B. auto.
-  - exists 0%nat, (fst (sysv_prim PPtr)). destruct (sysv_prim_facts PPtr) as [A [B _]].
-    rewrite prim_table_sysv in H. cbn [ty_sa]. destruct (sysv_prim PPtr) as [s a]. cbn [fst snd] in *.
-    inversion H; subst. rewrite m32_small by exact B. auto.
-  - exists 0%nat, (fst (sysv_prim PSlice)). destruct (sysv_prim_facts PSlice) as [A [B _]].
-    rewrite prim_table_sysv in H. cbn [ty_sa]. destruct (sysv_prim PSlice) as [s a]. cbn [fst snd] in *.
-    inversion H; subst. rewrite m32_small by exact B. auto.
-  - destruct (rlookup m name) as [[s0 a0]|] eqn:L; [|discriminate]. inversion H; subst.
-    destruct (Hm _ _ _ L) as [f [s [H1 [H2 H3]]]]. exists f, s. cbn [ty_sa]. auto.
-  - apply bind_ok in H as [[s0 a0] [H1 H]]. destruct (IHt _ _ H1) as [f [s [T1 [T2 T3]]]].
-    unfold array_layout, mul32 in H. cbn [andb bind fst snd] in H. inversion H; subst.
-    exists f, (s * n). cbn [ty_sa]. rewrite T1. split; [reflexivity|]. split; [|assumption].
-    unfold m32. rewrite <- N.mul_mod by (unfold W32; lia). reflexivity.
+  induction f as [|f IH]; intros nm s a H; [discriminate|].
+  rewrite c_struct_sa_unfold in H. destruct (find_def E nm) as [fs|]; [|discriminate].
+  destruct (seq_opt (map (ty_sa (c_struct_sa f E)) fs)) as [ms|] eqn:S1; [|discriminate].
+  assert (Hal : als ms).
+  { clear H. revert ms S1. induction fs as [|t fs IHfs]; intros ms S1; cbn in S1.
+    - inversion S1. constructor.
+    - destruct (ty_sa (c_struct_sa f E) t) as [[s0 a0]|] eqn:T; [|discriminate].
+      destruct (seq_opt (map (ty_sa (c_struct_sa f E)) fs)) as [ms'|]; [|discriminate].
+      inversion S1; subst. constructor; [|apply IHfs; reflexivity]. cbn [snd].
+      clear - T IH. revert s0 a0 T. induction t; intros s0 a0 T; cbn [ty_sa] in T.
+      + inversion T as [T']. pose proof (proj1 (sysv_prim_facts p)) as A. rewrite T' in A. exact A.
+      + inversion T; subst. exact (proj1 (sysv_prim_facts PPtr)).
+      + inversion T; subst. exact (proj1 (sysv_prim_facts PSlice)).
+      + eapply IH; eauto.
+      + destruct (ty_sa (c_struct_sa f E) t) as [[s1 a1]|]; [|discriminate]. inversion T; subst. eapply IHt; eauto. }
+  unfold c_struct_of in H. destruct (c_offsets ms 0). inversion H; subst. apply c_align_is_al. exact Hal.
 Qed.
 
-Lemma fields_layout_inv m fs : forall e ma r, fields_layout false m fs e ma = Ok r ->
-  exists ls, Forall2 (fun t sa => resolved_layout false m t = Ok sa) fs ls.
+Lemma ty_fits_mono E f f' t v : (f <= f')%nat -> ty_sa (c_struct_sa f E) t = Some v ->
+  ty_fits (c_struct_sa f E) t = true -> ty_fits (c_struct_sa f' E) t = true.
+Proof.
+  intro L. revert v. induction t; intros v Hv Hf; cbn [ty_fits] in *; auto.
+  apply andb_true_iff in Hf as [F1 F2].
+  destruct (ty_sa (c_struct_sa f E) (TArray t n)) as [[s a]|] eqn:T; [|discriminate].
+  rewrite (ty_sa_mono E f f' _ _ L T).
+  cbn [ty_sa] in T. destruct (ty_sa (c_struct_sa f E) t) as [[s0 a0]|] eqn:T0; [|discriminate].
+  rewrite (IHt _ eq_refl F1). exact F2.
+Qed.
+
+(* ---- from a successful run of the model to the specification (exact values) *)
+Definition m_ok (E : list sdef) (m : rmap) : Prop :=
+  forall nm s a, rlookup m nm = Some (s, a) ->
+    exists f, c_struct_sa f E nm = Some (s, a) /\ s < W32 /\ is_al a.
+
+Lemma resolved_to_spec E m : m_ok E m -> forall t s a,
+  resolved_layout m t = Ok (s, a) ->
+  exists f, ty_sa (c_struct_sa f E) t = Some (s, a) /\ ty_fits (c_struct_sa f E) t = true /\ s < W32 /\ is_al a.
+Proof.
+  intros Hm. induction t; intros s a H; cbn [resolved_layout] in H.
+  - exists 0%nat. destruct (sysv_prim_facts p) as [A [B _]].
+    rewrite prim_table_sysv in H. cbn [ty_sa ty_fits]. destruct (sysv_prim p) as [s0 a0]. cbn [fst snd] in *.
+    inversion H; subst. auto.
+  - exists 0%nat. destruct (sysv_prim_facts PPtr) as [A [B _]].
+    rewrite prim_table_sysv in H. cbn [ty_sa ty_fits]. destruct (sysv_prim PPtr) as [s0 a0]. cbn [fst snd] in *.
+    inversion H; subst. auto.
+  - exists 0%nat. destruct (sysv_prim_facts PSlice) as [A [B _]].
+    rewrite prim_table_sysv in H. cbn [ty_sa ty_fits]. destruct (sysv_prim PSlice) as [s0 a0]. cbn [fst snd] in *.
+    inversion H; subst. auto.
+  - destruct (rlookup m name) as [[s0 a0]|] eqn:L; [|discriminate]. inversion H; subst.
+    destruct (Hm _ _ _ L) as [f [H1 [H2 H3]]]. exists f. cbn [ty_sa ty_fits]. auto.
+  - apply bind_ok in H as [[s0 a0] [H1 H]]. destruct (IHt _ _ H1) as [f [T1 [T2 [T3 T4]]]].
+    unfold array_layout in H. cbn [fst snd] in H. destruct (W32 <=? s0 * n) eqn:C; [discriminate|].
+    inversion H; subst. exists f. cbn [ty_sa ty_fits]. rewrite T1, T2. cbn [andb].
+    repeat split; auto; lia.
+Qed.
+
+Lemma fields_layout_inv m fs : forall e ma r, fields_layout m fs e ma = Ok r ->
+  exists ls, Forall2 (fun t sa => resolved_layout m t = Ok sa) fs ls.
 Proof.
   induction fs as [|t fs IH]; intros e ma r H; [exists []; constructor|].
   cbn [fields_layout] in H. apply bind_ok in H as [fl [H1 H]]. apply bind_ok in H as [o [H2 H]].
@@ -415,54 +320,43 @@ Proof.
   destruct (IH _ _ _ H4) as [ls L]. exists (fl :: ls). constructor; assumption.
 Qed.
 
-Lemma fields_to_spec E m fs ls : m_ok E m ->
-  Forall2 (fun t sa => resolved_layout false m t = Ok sa) fs ls ->
-  exists f ms, Forall2 (fun t sa => ty_sa (c_struct_sa f E) t = Some sa) fs ms
-               /\ fields_resolve32 m fs ms /\ als ms.
+Lemma fields_to_spec E m fs ms : m_ok E m -> fields_resolve m fs ms ->
+  exists f, Forall2 (fun t sa => ty_sa (c_struct_sa f E) t = Some sa /\ ty_fits (c_struct_sa f E) t = true) fs ms
+            /\ als ms.
 Proof.
-  intros Hm. induction 1 as [|t [sz al] fs ls Ht _ IH].
-  - exists 0%nat, []. repeat split; constructor.
-  - destruct IH as [f [ms [I1 [I2 I3]]]].
-    destruct (resolved_to_spec E m Hm _ _ _ Ht) as [f0 [s [T1 [T2 T3]]]].
-    exists (Nat.max f f0), ((s, al) :: ms). repeat split.
-    + constructor; [apply (ty_sa_mono E f0); [lia|exact T1]|].
-      eapply Forall2_imp; [|exact I1]. intros a b. apply ty_sa_mono. lia.
-    + constructor; [|exact I2]. cbn [fst snd]. rewrite <- T2. exact Ht.
-    + constructor; [exact T3|exact I3].
+  intros Hm. induction 1 as [|t [s a] fs ms Ht _ IH].
+  - exists 0%nat. split; constructor.
+  - destruct IH as [f [I1 I2]].
+    destruct (resolved_to_spec E m Hm _ _ _ Ht) as [f0 [T1 [T2 [T3 T4]]]].
+    exists (Nat.max f f0). split.
+    + constructor.
+      * split; [apply (ty_sa_mono E f0); [lia|exact T1]|eapply (ty_fits_mono E f0); [lia|exact T1|exact T2]].
+      * eapply Forall2_imp; [|exact I1]. intros t' sa X. cbv beta in X. destruct X as [A B]. split; [eapply ty_sa_mono; [|exact A]; lia|eapply ty_fits_mono; [|exact A|exact B]; lia].
+    + constructor; [exact T4|exact I2].
 Qed.
 
 Lemma Forall2_seq_opt {A B} (g : A -> option B) l r :
   Forall2 (fun x y => g x = Some y) l r -> seq_opt (map g l) = Some r.
 Proof. induction 1 as [|x y l r H _ IH]; cbn; [reflexivity|]. rewrite H, IH. reflexivity. Qed.
 
-Lemma c_struct_offsets_le ms : als ms ->
-  Forall (fun o => o <= snd (fst (c_struct_of ms))) (fst (fst (c_struct_of ms))).
-Proof.
-  intro Hal. unfold c_struct_of. pose proof (c_offsets_bounds ms Hal 0) as [_ B].
-  destruct (c_offsets ms 0) as [os e]. cbn [fst snd] in *.
-  pose proof (round_up_ge e (c_align ms) (c_align_is_al ms Hal)) as G.
-  clear Hal. revert G. generalize (round_up e (c_align ms)). intros S G.
-  induction B as [|o sa os ms [_ X] _ IH]; constructor; [lia|exact IH].
-Qed.
-
 Lemma struct_layout_to_spec E m fs os sz al : m_ok E m ->
-  struct_layout false m fs = Ok (os, sz, al) ->
-  exists f cos s, c_struct f E fs = Some (cos, s, al) /\ os = map m32 cos /\ sz = m32 s /\ is_al al
-                  /\ Forall (fun o => o <= s) cos.
+  struct_layout m fs = Ok (os, sz, al) ->
+  exists f, c_struct f E fs = Some (os, sz, al) /\ sz < W32 /\ is_al al
+            /\ (forall t, In t fs -> ty_fits (c_struct_sa f E) t = true).
 Proof.
   intros Hm H. pose proof H as H0. unfold struct_layout in H0. apply bind_ok in H0 as [x [H1 _]].
-  destruct (fields_layout_inv _ _ _ _ _ H1) as [ls L].
-  destruct (fields_to_spec E m fs ls Hm L) as [f [ms [S1 [S2 S3]]]].
-  rewrite (struct_layout_wrap m fs ms S2 S3) in H.
-  exists f, (fst (fst (c_struct_of ms))), (snd (fst (c_struct_of ms))).
-  unfold c_struct. rewrite (Forall2_seq_opt _ _ _ S1).
-  pose proof (c_struct_offsets_le ms S3) as LE.
-  assert (A : is_al (snd (c_struct_of ms))).
-  { unfold c_struct_of. destruct (c_offsets ms 0). cbn [snd]. apply c_align_is_al. exact S3. }
-  destruct (c_struct_of ms) as [[cos s] a]. cbn [fst snd] in *. inversion H; subst. auto 6.
+  destruct (fields_layout_inv _ _ _ _ _ H1) as [ms L].
+  destruct (fields_to_spec E m fs ms Hm L) as [f [S1 S3]].
+  rewrite (struct_layout_char m fs ms L S3) in H.
+  destruct (W32 <=? snd (fst (c_struct_of ms))) eqn:C; [discriminate|]. inversion H as [H'].
+  exists f. unfold c_struct.
+  rewrite (Forall2_seq_opt _ _ _ (Forall2_imp _ _ _ _ (fun t sa (X : _ /\ _) => proj1 X) S1)).
+  rewrite H'. split; [reflexivity|]. rewrite H' in C. cbn [fst snd] in C. split; [lia|]. split.
+  - assert (A : is_al (snd (c_struct_of ms))).
+    { unfold c_struct_of. destruct (c_offsets ms 0). cbn [snd]. apply c_align_is_al. exact S3. }
+    rewrite H' in A. exact A.
+  - clear - S1. induction S1 as [|t sa fs ms [_ F] _ IH]; intros t' Hin; [destruct Hin|]. destruct Hin as [<-|Hin]; auto.
 Qed.
-
-(* ------------------------------------------------------------------ part f *)
 Lemma find_def_nth E : NoDup (map sname E) -> forall i d, nth_error E i = Some d ->
   find_def E (sname d) = Some (sfields d).
 Proof.
@@ -484,63 +378,54 @@ Proof.
     destruct (IH _ _ _ H) as [[-> ->]|R]; auto.
 Qed.
 
+
 Definition offs_ok (E : list sdef) (offs : list (option (list N))) : Prop :=
   forall i d os, nth_error E i = Some d -> nth_error offs i = Some (Some os) ->
-    exists f cos s a, c_struct f E (sfields d) = Some (cos, s, a) /\ os = map m32 cos
-                      /\ Forall (fun o => o <= s) cos.
+    exists f s a, c_struct f E (sfields d) = Some (os, s, a) /\ struct_fits f E d.
 
 Lemma lay_ok E : NoDup (map sname E) -> forall order m offs offs' m',
-  lay false E order m offs = Ok (offs', m') -> m_ok E m -> offs_ok E offs ->
+  lay E order m offs = Ok (offs', m') -> m_ok E m -> offs_ok E offs ->
   m_ok E m' /\ offs_ok E offs'.
 Proof.
   intros ND. induction order as [|i order IH]; intros m offs offs' m' H Hm Ho; cbn [lay] in H.
   - inversion H; subst. auto.
   - destruct (nth_error E i) as [d|] eqn:Ed; [|discriminate].
     apply bind_ok in H as [[[os sz] al] [H1 H]].
-    destruct (struct_layout_to_spec E m _ _ _ _ Hm H1) as [f [cos [s [S1 [S2 [S3 [S4 S5]]]]]]].
+    destruct (struct_layout_to_spec E m _ _ _ _ Hm H1) as [f [S1 [S2 [S3 S4]]]].
     apply (IH _ _ _ _ H).
     + intros nm sz' al' L. cbn [rlookup] in L. destruct (sname d =? nm) eqn:Eq; [|eapply Hm; eauto].
       inversion L; subst. apply N.eqb_eq in Eq. subst nm.
-      exists (S f), s. split; [|auto]. rewrite c_struct_sa_unfold.
+      exists (S f). split; [|auto]. rewrite c_struct_sa_unfold.
       rewrite (find_def_nth E ND i d Ed). unfold c_struct in S1.
       destruct (seq_opt (map (ty_sa (c_struct_sa f E)) (sfields d))) as [ms|]; [|discriminate].
       inversion S1 as [S1']. rewrite S1'. reflexivity.
     + intros j d' os' Ed' Hn. apply nth_error_set_nth in Hn as [[-> Hx]|Hn]; [|eapply Ho; eauto].
-      inversion Hx; subst. rewrite Ed in Ed'. inversion Ed'; subst. exists f, cos, s, al. auto.
+      inversion Hx; subst. rewrite Ed in Ed'. inversion Ed'; subst. exists f, sz, al.
+      split; [exact S1|]. split; [exact S4|]. eexists. eexists. eexists. split; [exact S1|exact S2].
 Qed.
 
 Lemma nth_error_all_none {A} (E : list A) i (x : list N) :
   nth_error (map (fun _ => @None (list N)) E) i = Some (Some x) -> False.
 Proof. revert i. induction E; intros [|i] H; cbn in H; try discriminate. eauto. Qed.
 
-(* partial correctness of compute_layouts w.r.t. the specification, both arithmetic modes *)
-Lemma compute_layouts_sound chk E offs m : NoDup (map sname E) ->
-  compute_layouts chk E = Ok (offs, m) ->
+(* partial correctness of compute_layouts w.r.t. the specification: exact values *)
+Lemma compute_layouts_sound E offs m : NoDup (map sname E) ->
+  compute_layouts E = Ok (offs, m) ->
   (forall i d os, nth_error E i = Some d -> nth_error offs i = Some (Some os) ->
-     exists f cos s a, c_struct f E (sfields d) = Some (cos, s, a) /\ os = map m32 cos
-                       /\ (s < W32 -> os = cos)) /\
-  (forall nm sz al, rlookup m nm = Some (sz, al) ->
-     exists f s, c_struct_sa f E nm = Some (s, al) /\ sz = m32 s /\ (s < W32 -> sz = s)).
+     exists f s a, c_struct f E (sfields d) = Some (os, s, a) /\ struct_fits f E d) /\
+  (forall nm s a, rlookup m nm = Some (s, a) -> exists f, c_struct_sa f E nm = Some (s, a) /\ s < W32).
 Proof.
-  intros ND H. assert (H' : compute_layouts false E = Ok (offs, m)) by (destruct chk; [apply compute_layouts_chk|]; exact H).
-  clear H. unfold compute_layouts in H'. destruct (has_self_ref E); [discriminate|].
-  apply bind_ok in H' as [order [_ H]].
+  intros ND H. unfold compute_layouts in H. destruct (has_self_ref E); [discriminate|].
+  apply bind_ok in H as [order [_ H]].
   destruct (lay_ok E ND _ _ _ _ _ H) as [Hm Ho].
   - intros nm sz al L. discriminate.
   - intros i d os _ Hn. exfalso. eapply nth_error_all_none; eauto.
-  - split.
-    + intros i d os Ed Hn. destruct (Ho _ _ _ Ed Hn) as [f [cos [s [a [S1 [S2 S3]]]]]].
-      exists f, cos, s, a. repeat split; auto. intro Hs. subst os.
-      clear - S3 Hs. induction S3 as [|o cos Ho _ IH]; cbn; [reflexivity|].
-      rewrite IH. rewrite m32_small by lia. reflexivity.
-    + intros nm sz al L. destruct (Hm _ _ _ L) as [f [s [S1 [S2 S3]]]]. exists f, s.
-      repeat split; auto. intro. subst. apply m32_small. assumption.
+  - split; [exact Ho|]. intros nm s a L. destruct (Hm _ _ _ L) as [f [S1 [S2 _]]]. eauto.
 Qed.
 
-(* ------------------------------------------------------------------ diagnosis: direct self reference *)
-Lemma self_ref_diagnosed chk E d t :
+Lemma self_ref_diagnosed E d t :
   In d E -> In t (sfields d) -> refs_by_value t (sname d) = true ->
-  compute_layouts chk E = Fail ESelfRef.
+  compute_layouts E = Fail ESelfRef.
 Proof.
   intros Hd Ht Hr. unfold compute_layouts.
   assert (H : has_self_ref E = true).
@@ -548,30 +433,6 @@ Proof.
     unfold self_ref. apply existsb_exists. exists t. auto. }
   rewrite H. reflexivity.
 Qed.
-
-(* ------------------------------------------------------------------ the u32 defect, concretely *)
-Definition overflow_witness : list sdef := [(1, [TArray (TPrim PU8) 4294967297; TPrim PU8])].
-Lemma overflow_witness_facts :
-  (forall chk, exists m, compute_layouts chk overflow_witness = Ok ([Some [0; 1]], m)) /\
-  c_struct 1 overflow_witness (sfields (1, [TArray (TPrim PU8) 4294967297; TPrim PU8]))
-    = Some ([0; 4294967297], 4294967298, 1).
-Proof.
-  split; [intros [|]; eexists; vm_compute; reflexivity|vm_compute; reflexivity].
-Qed.
-
-(* 30 nested doublings of an 8-byte struct reach 2^32 bytes: reachable from source text *)
-Fixpoint doubling (k : nat) (n : N) : list sdef :=
-  match k with
-  | O => [(n, [TPrim PI64])]
-  | S k' => (n, [TStruct (n - 1); TStruct (n - 1)]) :: doubling k' (n - 1)
-  end.
-Definition doubling_witness : list sdef := (99, [TStruct 29; TPrim PU8]) :: doubling 29 29.
-Lemma doubling_witness_facts :
-  compute_layouts true doubling_witness = Fail EOverflow /\
-  bind (compute_layouts false doubling_witness)
-       (fun r => Ok (nth_error (fst r) 0, rlookup (snd r) 28, rlookup (snd r) 29))
-  = Ok (Some (Some [0; 0]), Some (2147483648, 8), Some (0, 8)).
-Proof. split; vm_compute; reflexivity. Qed.
 
 (* ------------------------------------------------------------------ part k *)
 Local Open Scope nat_scope.
@@ -977,8 +838,8 @@ Proof.
   - apply negb_true_iff. apply N.eqb_neq. exact Hne.
 Qed.
 
-Lemma cycle_diagnosed_lemma chk E : NoDup (map sname E) -> byvalue_cycle E ->
-  compute_layouts chk E = Fail ESelfRef \/ compute_layouts chk E = Fail ECycle.
+Lemma cycle_diagnosed_lemma E : NoDup (map sname E) -> byvalue_cycle E ->
+  compute_layouts E = Fail ESelfRef \/ compute_layouts E = Fail ECycle.
 Proof.
   intros ND [C [[nm0 C0] HC]]. unfold compute_layouts.
   destruct (has_self_ref E) eqn:SR; [left; reflexivity|right].
@@ -1045,35 +906,116 @@ Proof.
     intros i Hi. apply in_seq in Hi. apply Full. lia.
 Qed.
 
-(* ---- the layout loop succeeds when processed in such an order (release arithmetic never fails) *)
-Lemma align_to_false_ok o a : exists r, align_to false o a = Ok r.
-Proof. unfold align_to, add32, sub32. cbn [andb bind]. destruct (1 <=? (o + a) mod W32)%N; cbn [bind]; destruct (1 <=? a)%N; cbn [bind]; eauto. Qed.
 
-Lemma resolved_total m t : (forall nm, field_dep t = Some nm -> rlookup m nm <> None) ->
-  exists r, resolved_layout false m t = Ok r.
+Local Close Scope nat_scope.
+Local Open Scope N_scope.
+
+(* ---- every step either succeeds or reports TooLarge, when the by-value dependencies are resolved *)
+Definition okf {A} (r : res A) : Prop := (exists x, r = Ok x) \/ r = Fail ETooLarge.
+
+Lemma add32_okf a b : okf (add32 a b).
+Proof. unfold okf, add32. destruct (W32 <=? a + b); eauto. Qed.
+Lemma align_to_okf o a : okf (align_to o a).
+Proof. unfold align_to. destruct (add32_okf o (a - 1)) as [[u ->]| ->]; cbn [bind]; unfold okf; eauto. Qed.
+Lemma array_layout_okf el n : okf (array_layout el n).
+Proof. unfold okf, array_layout. destruct (W32 <=? fst el * n); eauto. Qed.
+
+Lemma resolved_okf m t : (forall nm, field_dep t = Some nm -> rlookup m nm <> None) ->
+  okf (resolved_layout m t).
 Proof.
-  induction t; intros H; cbn [resolved_layout]; eauto.
-  - cbn in H. destruct (rlookup m name) as [l|] eqn:L; [eauto|]. exfalso. exact (H name eq_refl L).
-  - destruct (IHt H) as [r Hr]. rewrite Hr. cbn [bind]. unfold array_layout, mul32. cbn [andb bind]. eauto.
+  induction t; intros H; cbn [resolved_layout]; try (left; eauto; fail).
+  - cbn in H. destruct (rlookup m name) as [l|] eqn:L; [left; eauto|]. exfalso. exact (H name eq_refl L).
+  - destruct (IHt H) as [[r ->]| ->]; cbn [bind]; [apply array_layout_okf|right; reflexivity].
 Qed.
 
-Lemma fields_total m fs : (forall t nm, In t fs -> field_dep t = Some nm -> rlookup m nm <> None) ->
-  forall e ma, exists r, fields_layout false m fs e ma = Ok r.
+Lemma fields_okf m fs : (forall t nm, In t fs -> field_dep t = Some nm -> rlookup m nm <> None) ->
+  forall e ma, okf (fields_layout m fs e ma).
 Proof.
-  induction fs as [|t fs IH]; intros H e ma; cbn [fields_layout]; [eauto|].
-  destruct (resolved_total m t (fun nm => H t nm (or_introl eq_refl))) as [fl Hr]. rewrite Hr. cbn [bind].
-  destruct (align_to_false_ok e (snd fl)) as [o Ho]. rewrite Ho. cbn [bind]. unfold add32 at 1. cbn [andb bind].
-  destruct (IH (fun t' nm Ht => H t' nm (or_intror Ht)) ((o + fst fl) mod W32)%N (N.max ma (snd fl))) as [[[offs e'] ma'] Hf].
-  rewrite Hf. cbn [bind]. eauto.
+  induction fs as [|t fs IH]; intros H e ma; cbn [fields_layout]; [left; eauto|].
+  destruct (resolved_okf m t (fun nm => H t nm (or_introl eq_refl))) as [[fl ->]| ->]; cbn [bind]; [|right; reflexivity].
+  destruct (align_to_okf e (snd fl)) as [[o ->]| ->]; cbn [bind]; [|right; reflexivity].
+  destruct (add32_okf o (fst fl)) as [[e' ->]| ->]; cbn [bind]; [|right; reflexivity].
+  destruct (IH (fun t' nm Ht => H t' nm (or_intror Ht)) e' (N.max ma (snd fl))) as [[[[offs e2] ma'] ->]| ->]; cbn [bind];
+    [left; eauto|right; reflexivity].
 Qed.
 
-Lemma struct_total m fs : (forall t nm, In t fs -> field_dep t = Some nm -> rlookup m nm <> None) ->
-  exists r, struct_layout false m fs = Ok r.
+Lemma struct_okf m fs : (forall t nm, In t fs -> field_dep t = Some nm -> rlookup m nm <> None) ->
+  okf (struct_layout m fs).
 Proof.
-  intro H. unfold struct_layout. destruct (fields_total m fs H 0%N 1%N) as [[[offs e] ma] Hf]. rewrite Hf. cbn [bind].
-  destruct (align_to_false_ok e ma) as [sz Hs]. rewrite Hs. cbn [bind]. eauto.
+  intro H. unfold struct_layout. destruct (fields_okf m fs H 0 1) as [[[[offs e] ma] ->]| ->]; cbn [bind]; [|right; reflexivity].
+  destruct (align_to_okf e ma) as [[sz ->]| ->]; cbn [bind]; [left; eauto|right; reflexivity].
 Qed.
 
+(* ---- a struct that fits is laid out *)
+Lemma c_struct_sa_det E f f' nm v v' : c_struct_sa f E nm = Some v -> c_struct_sa f' E nm = Some v' -> v = v'.
+Proof.
+  intros H H'. apply (c_struct_sa_mono E f (Nat.max f f')) in H; [|lia].
+  apply (c_struct_sa_mono E f' (Nat.max f f')) in H'; [|lia]. congruence.
+Qed.
+
+Lemma ty_sa_is_al E f t s a : ty_sa (c_struct_sa f E) t = Some (s, a) -> is_al a.
+Proof.
+  revert s a. induction t; intros s a T; cbn [ty_sa] in T.
+  - inversion T as [T']. pose proof (proj1 (sysv_prim_facts p)) as A. rewrite T' in A. exact A.
+  - inversion T; subst. exact (proj1 (sysv_prim_facts PPtr)).
+  - inversion T; subst. exact (proj1 (sysv_prim_facts PSlice)).
+  - eapply c_struct_sa_is_al; eauto.
+  - destruct (ty_sa (c_struct_sa f E) t) as [[s1 a1]|]; [|discriminate]. inversion T; subst. eapply IHt; eauto.
+Qed.
+
+Lemma resolved_fits E m f : m_ok E m -> forall t s a,
+  (forall nm, field_dep t = Some nm -> rlookup m nm <> None) ->
+  ty_sa (c_struct_sa f E) t = Some (s, a) -> ty_fits (c_struct_sa f E) t = true ->
+  resolved_layout m t = Ok (s, a).
+Proof.
+  intros Hm. induction t; intros s a Hd T F; cbn [resolved_layout ty_sa] in *.
+  - rewrite prim_table_sysv. congruence.
+  - rewrite prim_table_sysv. congruence.
+  - rewrite prim_table_sysv. congruence.
+  - destruct (rlookup m name) as [[s' a']|] eqn:L; [|exfalso; exact (Hd name eq_refl L)].
+    destruct (Hm _ _ _ L) as [f' [H1 _]]. rewrite (c_struct_sa_det E _ _ _ _ _ H1 T). reflexivity.
+  - cbn [ty_fits] in F. apply andb_true_iff in F as [F1 F2]. cbn [ty_sa] in F2.
+    destruct (ty_sa (c_struct_sa f E) t) as [[s0 a0]|] eqn:T0; [|discriminate]. inversion T; subst.
+    rewrite (IHt s0 a Hd eq_refl F1). cbn [bind]. unfold array_layout. cbn [fst snd].
+    replace (W32 <=? s0 * n) with false by lia. reflexivity.
+Qed.
+
+Lemma seq_opt_Forall2 {A B} (g : A -> option B) l r :
+  seq_opt (map g l) = Some r -> Forall2 (fun x y => g x = Some y) l r.
+Proof.
+  revert r. induction l as [|x l IH]; intros r H; cbn in H; [inversion H; constructor|].
+  destruct (g x) as [y|] eqn:G; [|discriminate]. destruct (seq_opt (map g l)) as [ys|]; [|discriminate].
+  inversion H; subst. constructor; auto.
+Qed.
+
+Lemma struct_fits_ok E m f d : m_ok E m ->
+  (forall t nm, In t (sfields d) -> field_dep t = Some nm -> rlookup m nm <> None) ->
+  struct_fits f E d -> exists r, struct_layout m (sfields d) = Ok r.
+Proof.
+  intros Hm Hd [F1 [cos [s [a [C Hs]]]]]. unfold c_struct in C.
+  destruct (seq_opt (map (ty_sa (c_struct_sa f E)) (sfields d))) as [ms|] eqn:S1; [|discriminate].
+  apply seq_opt_Forall2 in S1. inversion C as [C'].
+  assert (R : fields_resolve m (sfields d) ms /\ als ms).
+  { clear C C' Hs. revert F1 Hd. induction S1 as [|t [s0 a0] fs ms T _ IH]; intros F1 Hd; [split; constructor|].
+    destruct IH as [I1 I2]; [intros; apply F1; right; auto|intros t' nm Ht; apply (Hd t' nm); right; auto|].
+    split; constructor; auto.
+    - apply (resolved_fits E m f Hm); auto; [intros nm; apply (Hd t nm); left; auto|apply F1; left; auto].
+    - cbn [snd]. eapply ty_sa_is_al; eauto. }
+  destruct R as [R1 R2]. exists (c_struct_of ms). apply struct_layout_exact; auto. rewrite C'. exact Hs.
+Qed.
+
+Lemma m_ok_step E m i d os sz al : NoDup (map sname E) -> nth_error E i = Some d -> m_ok E m ->
+  struct_layout m (sfields d) = Ok (os, sz, al) -> m_ok E ((sname d, (sz, al)) :: m).
+Proof.
+  intros ND Ed Hm H1. destruct (struct_layout_to_spec E m _ _ _ _ Hm H1) as [f [S1 [S2 [S3 S4]]]].
+  intros nm sz' al' L. cbn [rlookup] in L. destruct (sname d =? nm) eqn:Eq; [|eapply Hm; eauto].
+  inversion L; subst. apply N.eqb_eq in Eq. subst nm.
+  exists (S f). split; [|auto]. rewrite c_struct_sa_unfold.
+  rewrite (find_def_nth E ND i d Ed). unfold c_struct in S1.
+  destruct (seq_opt (map (ty_sa (c_struct_sa f E)) (sfields d))) as [ms|]; [|discriminate].
+  inversion S1 as [S1']. rewrite S1'. reflexivity.
+Qed.
+Local Open Scope nat_scope.
 Fixpoint ready (E : list sdef) (done order : list nat) : Prop :=
   match order with
   | [] => True
@@ -1099,61 +1041,69 @@ Proof. revert i j. induction l as [|a l IH]; intros [|i] [|j] H; cbn; auto; try 
 
 Definition filled (offs : list (option (list N))) (i : nat) : Prop := exists os, nth_error offs i = Some (Some os).
 
+
 Lemma lay_total E : wf_env E -> forall order done m offs,
   ready E done order -> (forall i, In i order -> i < length E) -> length offs = length E ->
+  m_ok E m ->
   (forall j d, In j done -> nth_error E j = Some d -> rlookup m (sname d) <> None) ->
-  exists offs' m', lay false E order m offs = Ok (offs', m') /\ length offs' = length E /\
+  (exists offs' m', lay E order m offs = Ok (offs', m') /\ length offs' = length E /\
     (forall i, In i order \/ filled offs i -> filled offs' i) /\
-    (forall j d, In j done \/ In j order -> nth_error E j = Some d -> rlookup m' (sname d) <> None).
+    (forall j d, In j done \/ In j order -> nth_error E j = Some d -> rlookup m' (sname d) <> None))
+  \/ (lay E order m offs = Fail ETooLarge /\ ~ env_fits E).
 Proof.
   intros W. pose proof (wf_no_self_ref E W) as SR. pose proof (no_self_ref E SR) as NS.
-  induction order as [|i r IH]; intros done m offs R Lt Len Hm; cbn [lay].
-  - exists offs, m. repeat split; auto. + intros i [[]|H]; exact H. + intros j d [H|[]]; eauto.
+  induction order as [|i r IH]; intros done m offs R Lt Len Hok Hm; cbn [lay].
+  - left. exists offs, m. repeat split; auto. + intros i [[]|H]; exact H. + intros j d [H|[]]; eauto.
   - destruct R as [R1 R2]. assert (Hi : i < length E) by (apply Lt; left; auto).
     destruct (nth_error E i) as [d|] eqn:Ed; [|apply nth_error_None in Ed; lia].
     assert (Hd : In d E) by (eapply nth_error_In; eauto).
-    destruct (struct_total m (sfields d)) as [[[os sz] al] Hs].
+    assert (Dep : forall t nm, In t (sfields d) -> field_dep t = Some nm -> rlookup m nm <> None).
     { intros t nm Ht Hf. assert (Ne : nm <> sname d) by (intro X; apply (NS d t Hd Ht); congruence).
       destruct (dep_edge E i d t nm Ed Ht Hf Ne (wf_defined _ W d t nm Hd Ht Hf)) as [j [d' [_ [J1 [J2 J3]]]]].
       rewrite <- J3. apply (Hm j d' (R1 j J1) J2). }
-    rewrite Hs. cbn [bind].
-    destruct (IH (i :: done) ((sname d, (sz, al)) :: m) (set_nth offs i (Some os)) R2) as [offs' [m' [H1 [H2 [H3 H4]]]]].
+    destruct (struct_okf m (sfields d) Dep) as [[[[os sz] al] Hs]|Hs]; rewrite Hs; cbn [bind].
+    2:{ right. split; [reflexivity|]. intro Fit. destruct (Fit d Hd) as [f SF].
+        destruct (struct_fits_ok E m f d Hok Dep SF) as [rr Hr]. congruence. }
+    destruct (IH (i :: done) ((sname d, (sz, al)) :: m) (set_nth offs i (Some os)) R2) as [[offs' [m' [H1 [H2 [H3 H4]]]]]|Bad].
     + intros k Hk. apply Lt. right. exact Hk.
     + rewrite set_nth_length. exact Len.
+    + eapply m_ok_step; eauto. apply (wf_names _ W).
     + intros j d' [<-|Hj] Ej; cbn [rlookup].
       * assert (d' = d) by congruence. subst. rewrite N.eqb_refl. discriminate.
       * destruct (sname d =? sname d')%N; [discriminate|]. eapply Hm; eauto.
-    + exists offs', m'. repeat split; auto.
+    + left. exists offs', m'. repeat split; auto.
       * intros k [[<-|Hk]|Hk]; apply H3.
         -- right. exists os. apply nth_error_set_nth_same. lia.
         -- left. exact Hk.
         -- destruct (Nat.eq_dec i k) as [<-|Ne]; [right; exists os; apply nth_error_set_nth_same; lia|].
            right. destruct Hk as [x Hx]. exists x. rewrite nth_error_set_nth_other by exact Ne. exact Hx.
       * intros j d' Hj Ej. apply (H4 j d'); [|exact Ej]. destruct Hj as [Hj|[<-|Hj]]; [left; right; auto|left; left; auto|right; auto].
+    + right. exact Bad.
 Qed.
 
-(* whole environments: compute_layouts (release arithmetic) returns, fills every struct, and what it
-   returns is the specification (by compute_layouts_sound) *)
 Lemma compute_layouts_total E : wf_env E ->
-  exists offs m, compute_layouts false E = Ok (offs, m) /\
+  (exists offs m, compute_layouts E = Ok (offs, m) /\
     forall i d, nth_error E i = Some d ->
-      (exists os, nth_error offs i = Some (Some os)) /\ rlookup m (sname d) <> None.
+      (exists os, nth_error offs i = Some (Some os)) /\ rlookup m (sname d) <> None)
+  \/ (compute_layouts E = Fail ETooLarge /\ ~ env_fits E).
 Proof.
   intros W. unfold compute_layouts. rewrite (wf_no_self_ref E W).
   destruct (wf_order E W) as [out [F [HO Full]]]. rewrite HO. cbn [bind].
-  destruct (lay_total E W (rev out) [] [] (map (fun _ => None) E)) as [offs [m [H1 [H2 [H3 H4]]]]].
+  destruct (lay_total E W (rev out) [] [] (map (fun _ => None) E)) as [[offs [m [H1 [H2 [H3 H4]]]]]|Bad].
   - apply topo_ready. rewrite rev_involutive, app_nil_r. apply (f_topo _ _ F).
   - intros i Hi. apply in_rev in Hi. apply (f_lt _ _ F). exact Hi.
   - apply map_length.
+  - intros nm s a L. discriminate.
   - intros j d [].
-  - exists offs, m. split; [exact H1|]. intros i d Ed.
+  - left. exists offs, m. split; [exact H1|]. intros i d Ed.
     assert (Hi : In i (rev out)) by (apply -> in_rev; apply Full; apply nth_error_Some; congruence).
     split; [apply H3; left; exact Hi|apply (H4 i d); [right; exact Hi|exact Ed]].
+  - right. exact Bad.
 Qed.
 
-(* ------------------------------------------------------------------ part k6 *)
 Local Close Scope nat_scope.
 Local Open Scope N_scope.
+
 Lemma c_struct_sa_of_c_struct E f i d cos s a : NoDup (map sname E) -> nth_error E i = Some d ->
   c_struct f E (sfields d) = Some (cos, s, a) -> c_struct_sa (S f) E (sname d) = Some (s, a).
 Proof.
@@ -1162,36 +1112,42 @@ Proof.
   inversion H as [H']. rewrite H'. reflexivity.
 Qed.
 
-Lemma c_struct_sa_det E f f' nm v v' : c_struct_sa f E nm = Some v -> c_struct_sa f' E nm = Some v' -> v = v'.
-Proof.
-  intros H H'. apply (c_struct_sa_mono E f (Nat.max f f')) in H; [|lia].
-  apply (c_struct_sa_mono E f' (Nat.max f f')) in H'; [|lia]. congruence.
-Qed.
-
-(* layout_matches_sysv for whole environments (release arithmetic) *)
+(* layout_matches_sysv for whole environments *)
 Lemma layout_matches_sysv_lemma E : wf_env E ->
-  exists offs m, compute_layouts false E = Ok (offs, m) /\
-    forall i d, nth_error E i = Some d ->
-      exists os f cos s a,
-        nth_error offs i = Some (Some os) /\
-        c_struct f E (sfields d) = Some (cos, s, a) /\
-        os = map (fun o => o mod W32) cos /\ rlookup m (sname d) = Some (s mod W32, a) /\
-        (s < W32 -> os = cos /\ rlookup m (sname d) = Some (s, a)).
+  (env_fits E /\ exists offs m, compute_layouts E = Ok (offs, m) /\
+     forall i d, nth_error E i = Some d ->
+       exists os f s a,
+         nth_error offs i = Some (Some os) /\ c_struct f E (sfields d) = Some (os, s, a) /\
+         s < W32 /\ rlookup m (sname d) = Some (s, a))
+  \/ (~ env_fits E /\ compute_layouts E = Fail ETooLarge).
 Proof.
-  intros W. destruct (compute_layouts_total E W) as [offs [m [H T]]].
-  exists offs, m. split; [exact H|]. intros i d Ed.
-  destruct (T i d Ed) as [[os Hos] Hm].
-  destruct (compute_layouts_sound false E offs m (wf_names _ W) H) as [S1 S2].
-  destruct (S1 i d os Ed Hos) as [f [cos [s [a [C1 [C2 C3]]]]]].
-  destruct (rlookup m (sname d)) as [[sz al]|] eqn:L; [|congruence].
-  destruct (S2 _ _ _ L) as [f' [s' [D1 [D2 D3]]]].
-  pose proof (c_struct_sa_of_c_struct E f i d cos s a (wf_names _ W) Ed C1) as D4.
-  pose proof (c_struct_sa_det E _ _ _ _ _ D1 D4) as X. inversion X; subst s' al.
-  exists os, f, cos, s, a. repeat split; auto.
-  - rewrite D2. reflexivity.
-  - rewrite D3 by assumption. reflexivity.
+  intros W. destruct (compute_layouts_total E W) as [[offs [m [H T]]]|[H NF]]; [left|right; auto].
+  destruct (compute_layouts_sound E offs m (wf_names _ W) H) as [S1 S2].
+  split.
+  - intros d Hd. apply In_nth_error in Hd as [i Ed]. destruct (T i d Ed) as [[os Hos] _].
+    destruct (S1 i d os Ed Hos) as [f [s [a [_ SF]]]]. exists f. exact SF.
+  - exists offs, m. split; [exact H|]. intros i d Ed.
+    destruct (T i d Ed) as [[os Hos] Hm].
+    destruct (S1 i d os Ed Hos) as [f [s [a [C1 [_ [cos [s' [a' [C2 Hs]]]]]]]]].
+    rewrite C1 in C2. inversion C2; subst cos s' a'.
+    destruct (rlookup m (sname d)) as [[sz al]|] eqn:L; [|congruence].
+    destruct (S2 _ _ _ L) as [f' [D1 D2]].
+    pose proof (c_struct_sa_of_c_struct E f i d os s a (wf_names _ W) Ed C1) as D4.
+    pose proof (c_struct_sa_det E _ _ _ _ _ D1 D4) as X. inversion X; subst sz al.
+    exists os, f, s, a. auto.
 Qed.
 
+(* no guard needed to state it: when everything fits the result is the C layout *)
+Lemma layout_fits_lemma E : wf_env E -> env_fits E ->
+  exists offs m, compute_layouts E = Ok (offs, m) /\
+     forall i d, nth_error E i = Some d ->
+       exists os f s a,
+         nth_error offs i = Some (Some os) /\ c_struct f E (sfields d) = Some (os, s, a) /\
+         s < W32 /\ rlookup m (sname d) = Some (s, a).
+Proof. intros W F. destruct (layout_matches_sysv_lemma E W) as [[_ H]|[NF _]]; [exact H|contradiction]. Qed.
+
+Lemma layout_too_large_lemma E : wf_env E -> ~ env_fits E -> compute_layouts E = Fail ETooLarge.
+Proof. intros W NF. destruct (layout_matches_sysv_lemma E W) as [[F _]|[_ H]]; [contradiction|exact H]. Qed.
 (* ---- the specification does not mention the declaration order *)
 Lemma find_def_some_In E nm fs : find_def E nm = Some fs -> In (nm, fs) E.
 Proof.
@@ -1239,45 +1195,44 @@ Qed.
 
 (* layout_order_independent: the same definitions in any two declaration orders get the same
    offsets, sizes and alignments (no size guard: also the wrapped values coincide) *)
-Lemma layout_order_independent_lemma E E' : wf_env E -> Permutation E E' ->
-  exists offs m offs' m',
-    compute_layouts false E = Ok (offs, m) /\ compute_layouts false E' = Ok (offs', m') /\
-    forall i i' d, nth_error E i = Some d -> nth_error E' i' = Some d ->
-      nth_error offs i = nth_error offs' i' /\ rlookup m (sname d) = rlookup m' (sname d).
+
+Lemma ty_fits_cong (sl sl' : N -> option (N * N)) t : (forall nm, sl nm = sl' nm) -> ty_fits sl t = ty_fits sl' t.
+Proof. intro H. induction t; cbn [ty_fits]; auto. rewrite IHt, (ty_sa_cong sl sl' _ H). reflexivity. Qed.
+
+Lemma env_fits_perm E E' : NoDup (map sname E) -> Permutation E E' -> env_fits E -> env_fits E'.
 Proof.
-  intros W P. pose proof (wf_env_perm E E' W P) as W'.
-  destruct (layout_matches_sysv_lemma E W) as [offs [m [H S]]].
-  destruct (layout_matches_sysv_lemma E' W') as [offs' [m' [H' S']]].
-  exists offs, m, offs', m'. repeat split; auto.
-  - destruct (S i d H0) as [os [f [cos [s [a [A1 [A2 [A3 [A4 _]]]]]]]]].
-    destruct (S' i' d H1) as [os' [f' [cos' [s' [a' [B1 [B2 [B3 [B4 _]]]]]]]]].
-    rewrite <- (c_struct_perm E E' f' _ (wf_names _ W) P) in B2.
-    pose proof (c_struct_det E _ _ _ _ _ A2 B2) as X. inversion X; subst. congruence.
-  - destruct (S i d H0) as [os [f [cos [s [a [A1 [A2 [A3 [A4 _]]]]]]]]].
-    destruct (S' i' d H1) as [os' [f' [cos' [s' [a' [B1 [B2 [B3 [B4 _]]]]]]]]].
-    rewrite <- (c_struct_perm E E' f' _ (wf_names _ W) P) in B2.
-    pose proof (c_struct_det E _ _ _ _ _ A2 B2) as X. inversion X; subst. congruence.
+  intros ND P F d Hd. apply (Permutation_in _ (Permutation_sym P)) in Hd.
+  destruct (F d Hd) as [f [F1 [cos [s [a [C Hs]]]]]]. exists f. split.
+  - intros t Ht. rewrite <- (ty_fits_cong _ _ t (c_struct_sa_perm E E' ND P f)). auto.
+  - exists cos, s, a. rewrite <- (c_struct_perm E E' f _ ND P). auto.
 Qed.
 
+(* layout_order_independent: the same definitions in any two declaration orders get the same
+   outcome: the same offsets, sizes and alignments, or TooLarge both times *)
+Lemma layout_order_independent_lemma E E' : wf_env E -> Permutation E E' ->
+  (exists offs m offs' m',
+     compute_layouts E = Ok (offs, m) /\ compute_layouts E' = Ok (offs', m') /\
+     forall i i' d, nth_error E i = Some d -> nth_error E' i' = Some d ->
+       nth_error offs i = nth_error offs' i' /\ rlookup m (sname d) = rlookup m' (sname d))
+  \/ (compute_layouts E = Fail ETooLarge /\ compute_layouts E' = Fail ETooLarge).
+Proof.
+  intros W P. pose proof (wf_env_perm E E' W P) as W'.
+  destruct (layout_matches_sysv_lemma E W) as [[F [offs [m [H S]]]]|[NF H]].
+  - left. destruct (layout_fits_lemma E' W' (env_fits_perm E E' (wf_names _ W) P F)) as [offs' [m' [H' S']]].
+    exists offs, m, offs', m'. split; [exact H|]. split; [exact H'|]. intros i i' d Ed Ed'.
+    destruct (S i d Ed) as [os [f [s [a [A1 [A2 [A3 A4]]]]]]].
+    destruct (S' i' d Ed') as [os' [f' [s' [a' [B1 [B2 [B3 B4]]]]]]].
+    rewrite <- (c_struct_perm E E' f' _ (wf_names _ W) P) in B2.
+    pose proof (c_struct_det E _ _ _ _ _ A2 B2) as X. inversion X; subst. split; congruence.
+  - right. split; [exact H|]. apply (layout_too_large_lemma E' W'). intro F'. apply NF.
+    apply (env_fits_perm E' E (wf_names _ W') (Permutation_sym P) F').
+Qed.
 
 Lemma topological_order_outcomes E :
   (exists order, topological_order E = Ok order) \/ topological_order E = Fail ECycle.
 Proof. destruct (topological_order_cases E) as [out [_ [[_ H]|[_ H]]]]; eauto. Qed.
 
-Lemma layout_checked_partial_lemma E offs m : wf_env E ->
-  compute_layouts true E = Ok (offs, m) ->
-  forall i d, nth_error E i = Some d ->
-    exists os f cos s a,
-      nth_error offs i = Some (Some os) /\ c_struct f E (sfields d) = Some (cos, s, a) /\
-      os = map (fun o => o mod W32) cos /\ (s < W32 -> os = cos /\ rlookup m (sname d) = Some (s, a)).
-Proof.
-  intros W H i d Ed. apply compute_layouts_chk in H.
-  destruct (layout_matches_sysv_lemma E W) as [offs' [m' [H' S]]].
-  rewrite H in H'. inversion H'; subst offs' m'.
-  destruct (S i d Ed) as [os [f [cos [s [a [A1 [A2 [A3 [A4 A5]]]]]]]]].
-  exists os, f, cos, s, a. auto.
-Qed.
-
+(* ------------------------------------------------------------------ concrete environments *)
 Definition example_env : list sdef :=
   [(2, [TPrim PU8; TArray (TStruct 1) 3; TPrim PU8; TPtr (TStruct 2)]);
    (1, [TPrim PI8; TPrim PI32; TPrim PI16])].
@@ -1290,6 +1245,12 @@ Proof.
   - exists N.to_nat. intros d t nm [<-|[<-|[]]] Ht Hf; cbn in Ht; intuition; subst; cbn in Hf; try discriminate;
       inversion Hf; subst; cbn; lia.
 Qed.
+Lemma example_fits : env_fits example_env.
+Proof.
+  intros d [<-|[<-|[]]]; exists 3%nat; (split;
+    [intros t Ht; cbn in Ht; intuition; subst; vm_compute; reflexivity
+    |eexists; eexists; eexists; split; [vm_compute; reflexivity|vm_compute; reflexivity]]).
+Qed.
 Lemma example_cycle : byvalue_cycle [(1, [TStruct 2]); (2, [TArray (TStruct 1) 0])].
 Proof.
   exists (fun nm => nm = 1 \/ nm = 2). split; [exists 1; auto|].
@@ -1297,3 +1258,25 @@ Proof.
   - exists (1, [TStruct 2]), (TStruct 2), 2. cbn. intuition.
   - exists (2, [TArray (TStruct 1) 0]), (TArray (TStruct 1) 0), 1. cbn. intuition.
 Qed.
+
+(* the inputs of the repaired defect KF-C18-1 (u32 wrap-around / silent truncation of the array
+   length): now diagnosed *)
+Definition overflow_witness : list sdef := [(1, [TArray (TPrim PU8) 4294967297; TPrim PU8])].
+Fixpoint doubling (k : nat) (n : N) : list sdef :=
+  match k with
+  | O => [(n, [TPrim PI64])]
+  | S k' => (n, [TStruct (n - 1); TStruct (n - 1)]) :: doubling k' (n - 1)
+  end.
+Definition doubling_witness : list sdef := (99, [TStruct 29; TPrim PU8]) :: doubling 29 29.
+Lemma former_overflow_inputs_diagnosed :
+  compute_layouts overflow_witness = Fail ETooLarge /\
+  compute_layouts [(1, [TArray (TPrim PI64) 536870912; TPrim PU8])] = Fail ETooLarge /\
+  compute_layouts doubling_witness = Fail ETooLarge.
+Proof. repeat split; vm_compute; reflexivity. Qed.
+
+(* ... and the largest struct that fits is still laid out exactly *)
+Lemma largest_struct_laid_out :
+  bind (compute_layouts [(1, [TArray (TPrim PU8) 4294967294; TPrim PU8])])
+       (fun r => Ok (fst r, rlookup (snd r) 1))
+  = Ok ([Some [0; 4294967294]], Some (4294967295, 1)).
+Proof. vm_compute. reflexivity. Qed.
